@@ -246,6 +246,16 @@ def _coulomb_pots(L, kt=1.0, kb=None):
 def check_handler(case):
     import jellyfysh.setting as setting
     kind = case[1]
+    if kind == "lifting":
+        # the lifting step of the kernel: flow balance of the tables the real molecule handlers build (C05's oracle)
+        from .c05 import check_pair_handler
+        (sig, n), fails = check_pair_handler(("pairhandler",) + tuple(case[2:]))
+        return (("lifting", frozenset([tuple(map(str, sig))])), n), fails
+    if kind == "cellveto":
+        # cell-veto proposals: total rate, target cell, confirmation bound (C18's oracle)
+        from .c18 import check_cell_veto
+        (sig, n), fails = check_cell_veto(("veto",) + tuple(case[2:]))
+        return (("cellveto", frozenset([tuple(map(str, sig))])), n), fails
     fn = {"direct": case_direct, "cbound": case_cbound, "summed": case_summed, "root_summed": case_root_summed,
           "root_direct": case_root_direct, "piecewise_lj": case_piecewise_lj, "bending": case_bending}[kind]
     try:
@@ -296,10 +306,14 @@ def case_cbound(case):
     """("handler", "cbound", L, kt, kb, cb)"""
     from jellyfysh.event_handler.two_leaf_unit_bounding_potential_event_handler import \
         TwoLeafUnitBoundingPotentialEventHandler
-    _, _, L, kt, kb, cb = case
+    _, _, L, kt, kb, cb = case[:6]
+    restored = len(case) > 6 and case[6]
     init_setting((L, L, L), cubic=True)
     true, bound = _coulomb_pots(L, kt, kb)
     handler = TwoLeafUnitBoundingPotentialEventHandler(potential=true, bounding_potential=bound, charge=Q)
+    if restored:
+        import dill
+        handler = dill.loads(dill.dumps(handler))  # the handler of a resumed run
     n, regimes, fails = 0, set(), []
     for sep, d in GEOS:
         vel = [0.0, 0.0, 0.0]
@@ -307,8 +321,9 @@ def case_cbound(case):
         pa = [0.5 * L] * 3
         pb = [(pa[i] + sep[i] * L) % L for i in range(3)]
         st = [hx.atom_branch(0, pa, {Q: 1.0}, vel, (1.0, 0.25)), hx.atom_branch(1, pb, {Q: cb})]
-        k, rg, fl = kernel_identity("TwoLeafUnitBoundingPotentialEventHandler (periodic Coulomb, 1/r bound) L=%r charge "
-                                    "product %+g separation %r*L direction %d" % (L, cb, sep, d), handler, st,
+        k, rg, fl = kernel_identity("TwoLeafUnitBoundingPotentialEventHandler (periodic Coulomb, 1/r bound%s) L=%r charge "
+                                    "product %+g separation %r*L direction %d"
+                                    % (", restored from a dump" if restored else "", L, cb, sep, d), handler, st,
                                     lambda t: pair_rate_coulomb(1.0, cb, pa, vel, pb, L, t, kt))
         n += k
         regimes |= rg
@@ -509,6 +524,13 @@ def cases(ctx):
             yield ("handler", "direct", spec, cb)
     yield ("handler", "direct", ("lj", 0.62, 0.3), 1.0)
     yield ("handler", "direct", ("even", 0.1, 2, 200.0), 1.0)
+    yield ("handler", "cbound", 1.0, 1.0, None, 1.0, True)
+    for scheme in ("inside_first_lifting.InsideFirstLifting", "outside_first_lifting.OutsideFirstLifting",
+                   "ratio_lifting.RatioLifting"):
+        for nl in (2, 3):
+            yield ("handler", "lifting", scheme, nl, 1)
+    yield ("handler", "cellveto", "composite", (1.0, 2.0), (5, 4), 1)
+    yield ("handler", "cellveto", "leaf", (1.0, 1.0), (4, 5), 1)
     for L, kt, kb in [(1.0, 1.0, None), (10.0, 332.0, 531.2)]:
         for cb in (1.0, -1.0):
             yield ("handler", "cbound", L, kt, kb, cb)
@@ -535,6 +557,7 @@ def run(ctx):
     for (kind, rg), k in sigs:
         evals += k
         regimes |= {(kind,) + tuple(r) for r in rg}
+    regimes = {tuple(str(x) for x in r) for r in regimes}
     for key, case, msg in fails:
         res.add(key, {"case": enc(case)}, msg)
     # (B) run level
